@@ -135,6 +135,7 @@ AUTO = ('wsgiref', 'gunicorn', 'uwsgi', 'mod_wsgi')
 _auto = [True]
 _auto_proto = [True]
 flavour_counts = {}
+TE_SPELLINGS = ['chunked', 'chunked', 'chunked', 'Chunked', 'CHUNKED', 'identity, Chunked', ' chunked ']
 
 
 def auto_flavours(on):
@@ -216,7 +217,11 @@ def make_environ(method='GET', path='/', qs='', headers=None, body=None, stream=
     if content_type is not None:
         env['CONTENT_TYPE'] = content_type
     if chunked:
-        env['HTTP_TRANSFER_ENCODING'] = 'chunked'
+        # transfer-coding names are case-insensitive, and 'chunked' may be the last of several codings a front end already undid
+        spell = TE_SPELLINGS[(len(path) + len(qs) + len(content_type or '') + len(body or b'') + len(getattr(stream, 'data', b'') or b'')) % len(TE_SPELLINGS)]
+        env['HTTP_TRANSFER_ENCODING'] = spell
+        if spell != 'chunked':
+            flavour_counts['transfer_encoding_spelled_otherwise'] = flavour_counts.get('transfer_encoding_spelled_otherwise', 0) + 1
     for k, v in (headers or {}).items():
         env['HTTP_' + k.upper().replace('-', '_')] = v
     if file_wrapper:
